@@ -19,7 +19,7 @@ usage: python3 checks/C08.py quick|thorough        (VERIF_SEED, VERIF_REPO honou
        python3 checks/C08.py replay <replay.json>  (re-runs the scenario of a VIOLATION artefact)
 """
 import concurrent.futures, json, os, random, sys, threading, time
-import common, server
+import common, ks, server
 import c08_driver as D
 
 NOLIST = ["string", "hash", "set", "zset", "stream"]
@@ -366,7 +366,29 @@ def main():
 
     # -- 2. B1: scenarios on real clusters
     scs = build_scenarios(tier, seed, classes, leads)
+    # failover witnesses (lib/clusterscen.py): the model's AckAfterDurable says an acknowledged write is in the WAL of a quorum;
+    # the schedule that tells the difference on real nodes is: quorum {L, F}, F dies between two stages of its Ready loop,
+    # L is lost, {F, P} must still have every acknowledged write. One per stage boundary in the thorough tier.
+    import clusterscen, conc
+    fgates = [("send", 120), ("walsave", 120)] if tier == "quick" else [(g, o) for g in ("ready", "walsave", "append", "send", "publish", "advance") for o in (60, 200)]
+    fex = concurrent.futures.ThreadPoolExecutor(max_workers=2 if tier == "quick" else 3)
+    ffut = [fex.submit(clusterscen.failover, ("failover-after-follower-crash-at-%s#%d" % (g, o), g, o, 900 + i), seed, scratch) for i, (g, o) in enumerate(fgates)]
     results = run_all(scs, 8 if tier == "quick" else 10, v, cov)
+    fres = [f.result() for f in ffut]
+    fex.shutdown()
+    cov["failover_scenarios"] = {}
+    for r in fres:
+        cov["failover_scenarios"][r["name"]] = dict(r["stats"], inconclusive=r["inconclusive"])
+        if r["inconclusive"]:
+            print("NOTE: scenario %s inconclusive (%s)" % (r["name"], r["inconclusive"]), flush=True)
+        if r["path"]:
+            nonlin, _ = conc.validate_hist_split(r["path"])
+            for n in nonlin:
+                hist = conc.history_of(n["path"], n["sub_h"])
+                v.report({"branch": "failover." + r["name"].split("-at-")[1].split("#")[0], "kind": "lost-write", "detail": "acknowledged write not on the surviving quorum"},
+                         {"scenario": r["name"], "faults": r["stats"]["faults"], "history_tail": hist[-60:], "failing_response": n},
+                         what="%s (%s): after the failover the surviving quorum returns %s for %s, which no order of the acknowledged writes explains" % (
+                             r["name"], "; ".join(r["stats"]["faults"]), ks.show_reply(n["got"]), ks.show_argv(n["argv"])))
     print("C08: %d scenarios on real clusters done  [%.0fs]" % (len(results), time.time() - t0), flush=True)
     fmodels.result()
     bg.shutdown()
